@@ -53,10 +53,11 @@ PROPS = {
         "quick_runs": 32000, "thorough_runs": 500000, "seed": 2000001,
         "rule": "C02 programs: 1-8 independent waiter/waker pairs over raw agent suspend/resume, condition_variable, semaphore, "
                 "latch, event, thread::join, pika::mutex hand-off, sync_wait from an OS thread, and timed waits (condition_variable::wait_for(pred), "
-                "try_acquire_for: the waiter is registered while it *yields* with the boost hint instead of suspending); the waiter publishes 'registered' "
+                "try_acquire_for: the waiter is registered while it *yields* with the boost hint instead of suspending); latch and semaphore pairs "
+                "have 0-3 co-waiters that one count_down / release(n) must wake together; the waiter publishes 'registered' "
                 "(under the facility's lock where there is one), the waker (task or OS thread) wakes only afterwards; focus "
                 "strategy on do_yield/do_resume/set_thread_state/set_active_state/scheduling_loop.",
-        "required_probes": ["mech0", "mech1", "mech5", "mech6", "timed_cv_wait_woken", "timed_sem_wait_woken"],
+        "required_probes": ["mech0", "mech1", "mech5", "mech6", "timed_cv_wait_woken", "timed_sem_wait_woken", "co_waiters"],
     },
     "C10": {
         "quick_runs": 20000, "thorough_runs": 300000, "seed": 10000001,
@@ -134,9 +135,10 @@ PROPS = {
         "quick_runs": 80000, "thorough_runs": 2000000, "seed": 4000001, "chunk": 4096,
         "rule": "C04 programs: 2-12 read/readwrite requests taken in order from async_rw_mutex<Val> / async_rw_mutex<void>; each "
                 "sender is started, dropped unstarted or (reads) copied and started twice on one of 1-4 threads after a drawn delay; "
-                "read wrappers are copied 0-2 times; every copy is released by a drawn thread after a drawn delay; the mutex "
-                "object is destroyed first in half of the runs.",
-        "required_probes": ["dropped_unstarted", "sender_copied", "mutex_destroyed_first", "void_mutex", "value_mutex"],
+                "read wrappers are copied 0-2 times; every copy is released by a drawn thread after a drawn delay; the program is cut "
+                "into 1-4 waves: a wave's senders are requested only after all accesses of the earlier waves were released; the mutex "
+                "object is destroyed first (after the last request) in half of the runs.",
+        "required_probes": ["dropped_unstarted", "sender_copied", "mutex_destroyed_first", "void_mutex", "value_mutex", "waves"],
         "stubbed": ["no pika runtime is started for this property: the header-only mutex is driven by simulated plain threads"],
     },
     "C05": {
